@@ -127,8 +127,10 @@ def cases(seed, tier):
             shapes = {}
             for nm in names:
                 dt = dts[rng.integers(len(dts))]
-                two_d = rng.random() < 0.4
-                shapes[nm] = (dt, (int(rng.integers(1, 4)),) if two_d else ())
+                u = rng.random()
+                # 1-D, 2-D, and higher-dimensional columns (the count in the header is the number of data values = prod(shape))
+                tail = () if u < 0.45 else ((int(rng.integers(1, 4)),) if u < 0.75 else tuple(int(x) for x in rng.integers(1, 4, size=int(rng.integers(2, 4)))))
+                shapes[nm] = (dt, tail)
             spec = []
             for f in range(nfiles):
                 d = {}
@@ -141,6 +143,13 @@ def cases(seed, tier):
                     d[nm] = arr
                 spec.append(d)
             out.append(spec)
+    # large columns: more than 2^20 values in one file (1-D, (N,3) and (N,2,2)), one per run, together with a short column
+    big_n = (1 << 20) + 7
+    big = [dict(a=rng.integers(0, 255, big_n).astype(np.uint8), b=rng.integers(0, 200, (big_n // 3 + 5, 3)).astype(np.int16),
+                c=rng.integers(0, 200, (2, 2, 2)).astype(np.float32)),
+           dict(a=rng.integers(0, 255, 3).astype(np.uint8), b=rng.integers(0, 200, (1, 3)).astype(np.int16),
+                c=rng.integers(0, 200, (300000, 2, 2)).astype(np.float32))]
+    out.append(big)
     return out
 
 
@@ -158,8 +167,11 @@ def check(run):
     bad = None
     for spec in cases(run.seed + 20, run.tier):
         distinct += 1
-        for r in (1, 2, 3):
+        large = sum(v.size for d in spec for v in d.values()) > 100000
+        for r in ((3,) if large else (1, 2, 3)):
             for fields in itertools.permutations(['a', 'b', 'c'], r):
+                if large and tuple(fields) not in (('a', 'b', 'c'), ('c', 'b', 'a')):
+                    continue
                 why = judge(spec, fields)
                 nev += 1
                 if why and not bad:
@@ -181,7 +193,7 @@ def check(run):
     if bad:
         run.bounded_violation('pipe framing', bad[0], bad[1])
     run.add_bounded('real unpack_to_pipe into an in-memory pipe vs byte-level reference', nev, distinct,
-                    '1-3 files x 3 columns (1-D/2-D, item widths 1..16, lengths {0,1,2,5,17}, a column empty in every file) x every ordered field subset; missing field (first / later) and missing file',
+                    '1-3 files x 3 columns (1-D / 2-D / 3-D / 4-D, item widths 1..16, lengths {0,1,2,5,17}, a column empty in every file) x every ordered field subset; one pair of files with columns of more than 2^20 values (1-D, (N,3), (N,2,2)); missing field (first / later) and missing file',
                     samples)
     run.extra['explanation'] = ('validation-dominates-write decided for all inputs by a structural analysis of the real AST; the framing itself by bounded '
                                 'run-time contract evaluation on synthetic files')
